@@ -61,9 +61,9 @@ pub fn fault_mask(mw: &MiniWorld, target: u32) -> u32 {
     // history: anything before the (last) expansion of the target besides Order/Spawn
     // history: the number of expansions before the target differs between the two hosts
     let before = |h: &HostCfg, first: bool| -> Option<usize> {
-        let is_t = |e: &Event| matches!(e, Event::Expand { input, .. } if *input == target);
+        let is_t = |e: &Event| matches!(e, Event::Expand { input, .. } | Event::ExpandTokens { input, .. } if *input == target);
         let p = if first { h.events.iter().position(is_t) } else { h.events.iter().rposition(is_t) };
-        p.map(|p| h.events[..p].iter().filter(|e| matches!(e, Event::Expand { .. })).count())
+        p.map(|p| h.events[..p].iter().filter(|e| matches!(e, Event::Expand { .. } | Event::ExpandTokens { .. })).count())
     };
     match (before(&mw.reference, true), before(&mw.bad, false)) {
         (Some(a), Some(b)) if a != b => m |= F_HISTORY,
@@ -76,7 +76,7 @@ pub fn fault_mask(mw: &MiniWorld, target: u32) -> u32 {
 /// A host that expands `target` once on each of `n` fresh threads: one process, n different
 /// RandomState keys.  Used to re-judge shrunk inputs so that shrinking does not stop at the
 /// first unlucky draw.
-fn panel_host(base: &HostCfg, target: u32, n: u32) -> HostCfg {
+fn panel_host(base: &HostCfg, target: u32, n: u32, token_built: bool) -> HostCfg {
     let mut h = base.clone();
     h.events.retain(|e| matches!(e, Event::Order { tid: 0, .. }));
     let order0 = h.events.first().cloned();
@@ -85,7 +85,7 @@ fn panel_host(base: &HostCfg, target: u32, n: u32) -> HostCfg {
         if let Some(Event::Order { policy, seed, .. }) = order0 {
             h.events.push(Event::Order { tid: t, policy, seed });
         }
-        h.events.push(Event::Expand { tid: t, input: target });
+        h.events.push(if token_built { Event::ExpandTokens { tid: t, input: target } } else { Event::Expand { tid: t, input: target } });
     }
     h
 }
@@ -103,6 +103,7 @@ pub fn minimise(env: &Env, start: MiniWorld, item: Option<Item>, d0: Divergence,
     let mut j = Judge { env, runs: 0, budget };
     let channel = d0.channel;
     let target = d0.input;
+    let token_built = d0.observed.token_built;
     let mut cur = start;
     let mut best = d0;
     let mut steps: Vec<String> = Vec::new();
@@ -212,7 +213,7 @@ pub fn minimise(env: &Env, start: MiniWorld, item: Option<Item>, d0: Divergence,
         });
         for e in c.bad.events.iter_mut() {
             match e {
-                Event::Expand { tid, .. } | Event::Perturb { tid, .. } => *tid = 0,
+                Event::Expand { tid, .. } | Event::ExpandTokens { tid, .. } | Event::Perturb { tid, .. } => *tid = 0,
                 _ => {},
             }
         }
@@ -220,10 +221,10 @@ pub fn minimise(env: &Env, start: MiniWorld, item: Option<Item>, d0: Divergence,
     }
     {
         // history: only the target expansion (keeping thread + order set-up for its thread)
-        let last = cur.bad.events.iter().rposition(|e| matches!(e, Event::Expand { input, .. } if *input == target));
+        let last = cur.bad.events.iter().rposition(|e| matches!(e, Event::Expand { input, .. } | Event::ExpandTokens { input, .. } if *input == target));
         if let Some(last) = last {
             let tid = match &cur.bad.events[last] {
-                Event::Expand { tid, .. } => *tid,
+                Event::Expand { tid, .. } | Event::ExpandTokens { tid, .. } => *tid,
                 _ => 0,
             };
             let mut c = cur.clone();
@@ -271,7 +272,7 @@ pub fn minimise(env: &Env, start: MiniWorld, item: Option<Item>, d0: Divergence,
                 }
                 let end = (start + chunk).min(evs.len());
                 let mut c = cur.clone();
-                let keep = |e: &Event| matches!(e, Event::Spawn { .. } | Event::Order { .. }) || matches!(e, Event::Expand { input, .. } if *input == target);
+                let keep = |e: &Event| matches!(e, Event::Spawn { .. } | Event::Order { .. }) || matches!(e, Event::Expand { input, .. } | Event::ExpandTokens { input, .. } if *input == target);
                 let ev: Vec<Event> = evs.iter().enumerate().filter(|(i, e)| *i < start || *i >= end || keep(e)).map(|(_, e)| e.clone()).collect();
                 if ev.len() == evs.len() {
                     start = end;
@@ -304,7 +305,7 @@ pub fn minimise(env: &Env, start: MiniWorld, item: Option<Item>, d0: Divergence,
             c.bad.events.remove(i);
             // a thread's Spawn must stay if the thread is still used
             let ok = c.bad.events.iter().all(|e| match e {
-                Event::Expand { tid, .. } | Event::Perturb { tid, .. } | Event::Order { tid, .. } => *tid == 0 || c.bad.events.iter().any(|s| matches!(s, Event::Spawn { tid: t } if t == tid)),
+                Event::Expand { tid, .. } | Event::ExpandTokens { tid, .. } | Event::Perturb { tid, .. } | Event::Order { tid, .. } => *tid == 0 || c.bad.events.iter().any(|s| matches!(s, Event::Spawn { tid: t } if t == tid)),
                 _ => true,
             });
             if !ok {
@@ -319,7 +320,7 @@ pub fn minimise(env: &Env, start: MiniWorld, item: Option<Item>, d0: Divergence,
     // 3. reference host: only the target
     if cur.reference.events.len() > 1 {
         let mut c = cur.clone();
-        c.reference.events = vec![Event::Expand { tid: 0, input: target }];
+        c.reference.events = vec![Event::Expand { tid: 0, input: target }, Event::ExpandTokens { tid: 0, input: target }];
         attempt!("reference history reduced to the single expansion", c);
     }
 
@@ -331,7 +332,7 @@ pub fn minimise(env: &Env, start: MiniWorld, item: Option<Item>, d0: Divergence,
             if cur.reference.events.len() <= 1 {
                 break;
             }
-            if matches!(&cur.reference.events[i], Event::Expand { input, .. } if *input == target) {
+            if matches!(&cur.reference.events[i], Event::Expand { input, .. } | Event::ExpandTokens { input, .. } if *input == target) {
                 continue;
             }
             let mut c = cur.clone();
@@ -360,7 +361,7 @@ pub fn minimise(env: &Env, start: MiniWorld, item: Option<Item>, d0: Divergence,
             }
             if use_panel {
                 let mut p = c.clone();
-                p.bad = panel_host(&c.bad, target, 12);
+                p.bad = panel_host(&c.bad, target, 12, token_built);
                 if let Some(d) = j.fails(&p, channel)? {
                     // thread t of the panel drew words 2(t-1), 2(t-1)+1 of the stream: give
                     // exactly those to the main thread of a single-expansion host
@@ -368,7 +369,7 @@ pub fn minimise(env: &Env, start: MiniWorld, item: Option<Item>, d0: Divergence,
                     if t >= 1 {
                         let mut s = c.clone();
                         s.bad.events.retain(|e| matches!(e, Event::Order { tid: 0, .. }));
-                        s.bad.events.push(Event::Expand { tid: 0, input: target });
+                        s.bad.events.push(if token_built { Event::ExpandTokens { tid: 0, input: target } } else { Event::Expand { tid: 0, input: target } });
                         s.bad.entropy_skip = c.bad.entropy_skip + 2 * (t - 1);
                         if let Some(d2) = j.fails(&s, channel)? {
                             return Ok(Some((s, d2)));
@@ -440,7 +441,7 @@ pub fn minimise(env: &Env, start: MiniWorld, item: Option<Item>, d0: Divergence,
     }
 
     // drop input definitions nobody uses any more
-    let used: Vec<u32> = cur.reference.events.iter().chain(cur.bad.events.iter()).filter_map(|e| if let Event::Expand { input, .. } = e { Some(*input) } else { None }).collect();
+    let used: Vec<u32> = cur.reference.events.iter().chain(cur.bad.events.iter()).filter_map(|e| if let Event::Expand { input, .. } | Event::ExpandTokens { input, .. } = e { Some(*input) } else { None }).collect();
     cur.texts.retain(|t| used.contains(&t.0));
 
     let m = fault_mask(&cur, target);
